@@ -300,7 +300,7 @@ SCALARS = set()       # terms known to be scalars (numeric parameters per numpyd
 
 
 def is_scalar(t):
-    return is_int(t) or t in SCALARS or isnum(t)
+    return is_int(t) or t in SCALARS or isnum(t) or (t[0] == 'atom' and t[2] == 'num')        # atoms of kind 'num' stand for one number
 
 
 REDUCERS = ('min', 'max', 'nanmin', 'nanmax', 'mean', 'nanmean', 'sum', 'median', 'pymin', 'pymax', 'argmax', 'argmin', 'any', 'all')
